@@ -170,7 +170,9 @@ def _vec_after_checks(S, v, before_list, key, spec, name_before, kind_before, nu
         return ("C08/wrong-contents", "length changed %d -> %d" % (len(before_list), len(got)), "length")
     k_now = _kind_name(v.schema())
     for i, (g, wv) in enumerate(zip(got, want)):
-        if not V.loose_eq(g, wv) and not (g is None and wv is None) and not V.loose_eq(g, _conv(wv, k_now)):
+        # exactly the list-assignment value, or its documented conversion to the column's kind
+        # (type-and-repr comparison: 0.0 is not -0.0, True is not 1)
+        if not V.same_value(g, wv) and not V.same_value(g, _conv(wv, k_now)):
             return ("C08/wrong-contents", "position %d holds %r, list assignment gives %r" % (i, g, wv), "contents")
     if V.tv(v.name) != name_before:
         return ("C08/wrong-contents", "name changed %s -> %r" % (name_before, v.name), "name")
